@@ -268,9 +268,22 @@ pub fn apply_add(p: &mut Psbt, s: &Setup, op: &Op) -> Result<(), Failure> {
 /// of the PSBT: the scripts it records are the descriptor's, and with every signature and
 /// preimage added the plan completes from the PSBT into a valid spend.
 fn check_plan_update(p: &Psbt, s: &Setup, i: usize) -> Result<(), Failure> {
+    check_plan_update_with(p, s, i, false)?;
+    if let MDesc::Tr(_, Some(_)) = &s.descs[i] {
+        // without the key-path signature the plan has to go through a leaf
+        check_plan_update_with(p, s, i, true)?;
+    }
+    Ok(())
+}
+
+fn check_plan_update_with(p: &Psbt, s: &Setup, i: usize, no_key_path: bool) -> Result<(), Failure> {
     let d = &s.descs[i];
     let kind = d.kind();
-    let plan = match guard("into_plan", || s.libs[i].clone().into_plan(&s.sats[i]))? {
+    let mut assets = s.sats[i].clone();
+    if no_key_path {
+        assets.tap_key = None;
+    }
+    let plan = match guard("into_plan", || s.libs[i].clone().into_plan(&assets))? {
         Ok(pl) => pl,
         Err(_) => return Ok(()),
     };
@@ -309,6 +322,9 @@ fn check_plan_update(p: &Psbt, s: &Setup, i: usize) -> Result<(), Failure> {
     }
     // everything the signers can add, then finalize this input
     for k in 0..s.slots[i].len() {
+        if no_key_path && matches!(s.slots[i][k], Slot::TapKey) {
+            continue;
+        }
         apply_add(&mut q, s, &Op::AddSig(i, k))?;
     }
     apply_add(&mut q, s, &Op::AddPreimages(i))?;
